@@ -71,7 +71,7 @@ def position_invariant(ctx, F):
     ctx.check("C15.INV", "constructed-only-in-its-module", not outside, fn="chess::position::Position", file=a["file"],
               what="a Position is built outside its module", found=outside)
     all_ok &= not outside
-    ctx.floor("C15.INV", "Position constructor sites", len(sites), 5)
+    ctx.floor("C15.INV", "Position constructor sites", len(sites), 3)
     # consts
     for cpath in sorted(p_ for p_, c_ in F.consts.items() if c_["ty"] == "chess::position::Position"):
         c = cpath.split("::")[-1]
@@ -114,10 +114,13 @@ def position_invariant(ctx, F):
                   expected="(0..8).contains(row) && (0..8).contains(col) on the path to the constructor", found=found)
         all_ok &= ok
     # unchecked constructors exist and are `unsafe fn` (precondition pushed to callers: PAWN / ROW obligations)
-    for name in ("new_unsafe", "add_unsafe"):
-        fn = F.fn("chess::position::Position::" + name)
+    # every other function of the module that builds a Position (unchecked constructors) must be an `unsafe fn`
+    checked = {"chess::position::Position::new", "chess::position::Position::add", "chess::position::Position::new_assert"}
+    for pth in sorted({s_[0] for s_ in sites} - checked):
+        fn = F.fn(pth)
+        name = pth.split("::")[-1]
         ctx.check("C15.INV", "unchecked-constructor-is-unsafe:%s" % name, fn.get("unsafe") is True, fn=fn["path"], file=fn["file"],
-                  what="an unchecked Position constructor is callable from safe code", found=fn.get("unsafe"))
+                  what="a function that builds a Position without checking its components is callable from safe code", found=fn.get("unsafe"))
         all_ok &= fn.get("unsafe") is True
     # accessors
     for name, want in (("row", ("field", ("var", "self"), "0")), ("col", ("field", ("var", "self"), "1"))):
@@ -235,7 +238,7 @@ def receiver_len(fn, t):
 def obligations(ctx, F, inv_ok):
     D = discr_map(F)
     sites = unsafe_sites(F)
-    ctx.floor("C15.OBL", "unsafe operations in the crate", len(sites), 14)
+    ctx.floor("C15.OBL", "unsafe operations in the crate", len(sites), 1)   # removing unchecked code is fine; enumeration itself is guarded by the positive control
     n = 0
     per_fn = {}
     for path, bi, t in sites:
